@@ -70,7 +70,10 @@ class G19(gen.Gen):
         if c == 5:
             return S("dimension %s(%s, %s)" % (nm(gen.ARR_NAMES), self.small_int(), self.small_int()), "decl"), []
         if c == 6:
-            return S("common /blk/ %s, %s" % (nm(), nm(gen.INT_NAMES)), "decl"), []
+            a, b, c2, d2 = nm(), nm(gen.INT_NAMES), nm(gen.ARR_NAMES), nm(gen.LOG_NAMES)
+            return S(r.pick(["common /blk/ %s, %s" % (a, b), "common %s, %s /blk/ %s" % (a, b, c2),
+                             "common // %s /blk/ %s, %s" % (a, b, c2), "common /b1/ %s, /b2/ %s, %s" % (a, b, d2),
+                             "common %s, %s" % (a, c2), "common /b1/ %s // %s /b1/ %s" % (a, b, c2)]), "decl"), []
         if c == 7:
             v = r.pick(gen.REAL_LITS[:6])
             return S("data %s /%s/" % (nm(), v), "decl"), [v]
